@@ -8,6 +8,7 @@ theorem astep_inv (a : Alarm) (e : Env) (op : AOp) (h : Inv a) :
     Inv (astep a e op).1 ∧ ∀ f ∈ (astep a e op).2, f.wasRunning = true := by
   cases op with
   | init sod m wd => exact ⟨initAlarm_inv a sod m wd h, by simp [astep]⟩
+  | initc x => exact ⟨initCron_inv a x h, by simp [astep]⟩
   | tz m => exact ⟨inv_congr rfl rfl h, by simp [astep]⟩
   | enable => exact ⟨enable_inv a e h, by simp [astep]⟩
   | disable => exact ⟨(disable_inv a h).1, by simp [astep]⟩
@@ -46,17 +47,26 @@ theorem initAlarm_st (a : Alarm) (sod : Int) (m : List Bool) (wd : Bool) (h : a.
   unfold initAlarm
   split
   · exact h
+  unfold initClassic
+  split
+  · exact h
   · split
     · exact h
     · split
       · exact h
       · simp
 
+theorem initCron_st (a : Alarm) (x : Option Cron.Expr) (h : a.st ≠ .running) : (initCron a x).1.st ≠ .running := by
+  unfold initCron
+  repeat' split
+  all_goals first | exact h | simp
+
 /-- an operation other than enable() on an alarm that is not enabled: no callback, still not enabled -/
 theorem astep_idle (a : Alarm) (e : Env) (op : AOp) (h : Inv a) (hst : a.st ≠ .running)
     (hne : isEnable op = false) : (astep a e op).2 = [] ∧ (astep a e op).1.st ≠ .running := by
   cases op with
   | init sod m wd => exact ⟨rfl, initAlarm_st a sod m wd hst⟩
+  | initc x => exact ⟨rfl, initCron_st a x hst⟩
   | tz m => exact ⟨rfl, hst⟩
   | enable => simp [isEnable] at hne
   | disable => exact ⟨rfl, (disable_inv a h).2⟩
@@ -115,9 +125,19 @@ theorem initAlarm_fields (a : Alarm) (sod : Int) (m : List Bool) (wd : Bool) :
   unfold initAlarm
   split
   · simp
+  unfold initClassic
+  split
+  · simp
   · split
     · simp
     · split <;> simp
+
+theorem initCron_fields (a : Alarm) (x : Option Cron.Expr) :
+    (initCron a x).1.cls = a.cls ∧ (initCron a x).1.nFired = a.nFired ∧
+    (initCron a x).1.nEnabled = a.nEnabled ∧ (initCron a x).1.timer = a.timer := by
+  unfold initCron
+  repeat' split
+  all_goals simp
 
 theorem disable_fields (a : Alarm) :
     (disable a).1.cls = a.cls ∧ (disable a).1.nFired = a.nFired ∧
@@ -187,6 +207,10 @@ theorem astep_oneshot (a : Alarm) (e : Env) (op : AOp) (hc : a.cls = .oneshot) (
   | init sod m wd =>
     obtain ⟨f1, f2, f3, f4⟩ := initAlarm_fields a sod m wd
     show OStep a (initAlarm a sod m wd).1 0 false
+    exact ostep_same h2 f1 f2 f3 (by rw [f4]; exact id) _
+  | initc x =>
+    obtain ⟨f1, f2, f3, f4⟩ := initCron_fields a x
+    show OStep a (initCron a x).1 0 false
     exact ostep_same h2 f1 f2 f3 (by rw [f4]; exact id) _
   | tz m =>
     show OStep a (setTimezone a m) 0 false
